@@ -134,6 +134,7 @@ def pick_encoding(r):
 BOM_WRITERS = {"utf-16": "utf-16", "utf-32": "utf-32"}
 KF_C1 = "C08-c1-controls-via-charref"
 KF_NONCHAR = "C08-noncharacters-in-attributes"
+KF_PICKLE = "C08-pickle-rewrites-declaration"
 ASCII_SPACES = " \n\t\x0c\r"
 
 
@@ -464,6 +465,31 @@ def build_doc(recipe):
                 parent.append(t)
                 add(t, it["kids"])
     add(soup.body, recipe["items"])
+    return soup
+
+
+def apply_history(soup, history):
+    """earlier calls on the same object (results discarded) and copies of it: none of this may change what a later
+    rendering says — placeholders are not consumed, cached or lost"""
+    import copy
+    import pickle
+    for step in history or []:
+        op = step[0]
+        try:
+            if op == "call":
+                call_entry(soup, step[1], step[2])
+            elif op == "decode":
+                soup.decode(eventual_encoding=step[1])
+            elif op == "str":
+                str(soup)
+            elif op == "copy":
+                soup = copy.copy(soup)
+            elif op == "deepcopy":
+                soup = copy.deepcopy(soup)
+            elif op == "pickle":
+                soup = pickle.loads(pickle.dumps(soup))
+        except Exception:
+            pass   # a raising call is a violation where that call is itself the case; here only its after-effects matter
     return soup
 
 
@@ -809,7 +835,7 @@ def expected_bom_codec(out, enc):
     return n
 
 
-def check_doc(ctx, batch, recipe, enc, entry, stream):
+def check_doc(ctx, batch, recipe, enc, entry, stream, history=None):
     """oracle (a)-(d) for one document, one target encoding, one entry point. Returns the violations found (for replay)."""
     e = E()
     NS = e["el"].NavigableString
@@ -817,12 +843,14 @@ def check_doc(ctx, batch, recipe, enc, entry, stream):
     f = facts(enc)
     found = []
     case = {"op": "doc", "recipe": recipe, "encoding": enc, "entry": entry}
+    if history:
+        case["history"] = history
 
     def viol(what, expected=None, observed=None, kf=None, kind=None):
         found.append((what, expected, observed, kf))
         report(ctx, what, kind=kind, case=case, expected=expected, observed=observed, stream=stream, kf=kf)
 
-    soup = build_doc(recipe)
+    soup = apply_history(build_doc(recipe), history)
     pretty = entry == "prettify"
     # (a) bytes, always
     try:
@@ -974,12 +1002,14 @@ def check_doc(ctx, batch, recipe, enc, entry, stream):
     return found
 
 
-def check_doc_str(ctx, batch, recipe, e_enc, stream):
+def check_doc_str(ctx, batch, recipe, e_enc, stream, history=None):
     """decode() to str: untouched for eventual_encoding=None, rewritten / emptied for a name (Python-specific names included)"""
     e = E()
     BS = e["BeautifulSoup"]
-    soup = build_doc(recipe)
+    soup = apply_history(build_doc(recipe), history)
     case = {"op": "doc-str", "recipe": recipe, "eventual_encoding": e_enc}
+    if history:
+        case["history"] = history
     found = []
     try:
         s = soup.decode(eventual_encoding=e_enc)
@@ -990,6 +1020,9 @@ def check_doc_str(ctx, batch, recipe, e_enc, stream):
         return found
     info = recipe["meta"]
     style = info["style"]
+    # classifier of the pickle finding: the case itself says that a pickle round trip came before, and the check is the
+    # "left alone" one (eventual_encoding=None)
+    kf_p = KF_PICKLE if e_enc is None and any(st[0] == "pickle" for st in (history or [])) else None
     again = BS(s, "html.parser")
     m2 = again.find("meta")
     if style != "none":
@@ -1003,7 +1036,7 @@ def check_doc_str(ctx, batch, recipe, e_enc, stream):
             what = ("decode() without a target encoding changed the declaration" if e_enc is None else
                     "decode(eventual_encoding=e) did not rewrite the declaration (empty / removed for a Python-specific e)")
             found.append(what)
-            report(ctx, what, case=case, expected=want, observed=got, stream=stream)
+            report(ctx, what, case=case, expected=want, observed=got, stream=stream, kf=kf_p)
     if style == "charset" and info.get("both") and m2 is not None:
         got = m2.get("content")
         want = ("text/html; charset=" + info["orig"] if e_enc is None else
@@ -1011,7 +1044,7 @@ def check_doc_str(ctx, batch, recipe, e_enc, stream):
         if got != want:
             what = "a <meta> carrying both declaration styles: decode() did not treat the one in `content` like the charset attribute"
             found.append(what)
-            report(ctx, what, case=case, expected=want, observed=got, stream=stream)
+            report(ctx, what, case=case, expected=want, observed=got, stream=stream, kf=kf_p)
     ctx.count("doc-str:" + ("none" if e_enc is None else "python-specific" if e_enc in PROP_PYTHON_SPECIFIC else "named") + ":" + style)
     ctx.case(("doc-str", json.dumps(recipe, sort_keys=True), e_enc) if style != "none" else None)
     if batch is not None:
@@ -1037,6 +1070,41 @@ def gen_recipe(r, enc, ctx):
     return {"meta": meta_markup(r), "items": gen_items(r, enc, ctx, 0, [0])}
 
 
+def rand_history(r):
+    steps = []
+    for _ in range(r.choice([1, 2, 3, 4])):
+        k = r.random()
+        if k < 0.45:
+            steps.append(["call", r.choice(ENTRIES[:3]), r.choice(["koi8-r", "utf-8", "ascii", "shift_jis", "utf-16", "866", "latin-1"])])
+        elif k < 0.6:
+            steps.append(["decode", r.choice([None, "big5", "idna", "utf-8"])])
+        elif k < 0.7:
+            steps.append(["str"])
+        else:
+            steps.append([r.choice(["copy", "deepcopy", "pickle"])])
+    return steps
+
+
+def stream_history(ctx, batch):
+    """the same object rendered several times (different targets, str in between), and copies / pickles of it"""
+    r = ctx.rng("history")
+    for i in range(ctx.n(500, 3000)):
+        enc = pick_encoding(r)
+        if not facts(enc).ascii_ok:
+            continue
+        recipe = gen_recipe(r, enc, ctx)
+        if recipe["meta"]["style"] == "none" and r.random() < 0.8:
+            continue
+        hist = rand_history(r)
+        check_doc(ctx, batch, recipe, enc, r.choice(ENTRIES), "history", history=hist)
+        check_doc_str(ctx, batch, recipe, r.choice([None, None, "idna", pick_encoding(r)]), "history", history=hist)
+        for st in hist:
+            ctx.count("history:step:" + st[0])
+        if len(batch.q) > 3000:
+            batch.flush()
+    batch.flush()
+
+
 def stream_docs(ctx, batch):
     r = ctx.rng("docs")
     n = ctx.n(2500, 15000)
@@ -1047,7 +1115,7 @@ def stream_docs(ctx, batch):
         recipe = gen_recipe(r, enc, ctx)
         for entry in (ENTRIES if i % 3 == 0 else r.sample(ENTRIES, 2)):
             check_doc(ctx, batch, recipe, enc, entry, "docs")
-        e_enc = r.choice([None, None, r.choice(PROP_PYTHON_SPECIFIC), pick_encoding(r)])
+        e_enc = r.choice([None, None, r.choice(PROP_PYTHON_SPECIFIC), pick_encoding(r), ""])
         check_doc_str(ctx, batch, recipe, e_enc, "docs")
         if len(batch.q) > 3000:
             batch.flush()
@@ -1236,7 +1304,7 @@ def stream_corpus(ctx, batch):
         v = json.loads(f.read_text())
         c = v.get("case", v)
         if c.get("op") == "doc":
-            check_doc(ctx, batch, c["recipe"], c["encoding"], c["entry"], "corpus")
+            check_doc(ctx, batch, c["recipe"], c["encoding"], c["entry"], "corpus", history=c.get("history"))
         elif c.get("op") == "subst":
             check_subst(ctx, batch, c["content"], c["eventual_encoding"], v.get("expected"), "corpus")
         ctx.count("corpus:cases")
@@ -1270,6 +1338,7 @@ def run(ctx: Ctx):
     stream_xcr(ctx, batch)
     stream_reader(ctx, batch)
     stream_misc(ctx, batch)
+    stream_history(ctx, batch)
     stream_docs(ctx, batch)
     if "unlawful_pairs" in ctx.extra:
         ctx.extra["unlawful_pairs"] = {k: sorted(v)[:40] for k, v in ctx.extra["unlawful_pairs"].items()}
@@ -1290,7 +1359,9 @@ def replay(path):
         soup = build_doc(c["recipe"])
         print("document:", ascii(soup.decode(eventual_encoding=None)))
         print(f"call: {c['entry']}({c['encoding']!r})")
-        found = check_doc(ctx, None, c["recipe"], c["encoding"], c["entry"], "replay")
+        if c.get("history"):
+            print("after:", c["history"])
+        found = check_doc(ctx, None, c["recipe"], c["encoding"], c["entry"], "replay", history=c.get("history"))
         for what, exp, obs, kf in found:
             print(("KNOWN-FINDING " + kf if kf else "VIOLATION") + ":", what)
             print("   property demands:", exp)
@@ -1304,7 +1375,7 @@ def replay(path):
         except Exception as ex:
             shown = "raised " + repr(ex)
         print(f"call: decode(eventual_encoding={c['eventual_encoding']!r}) ->", shown)
-        found = check_doc_str(ctx, None, c["recipe"], c["eventual_encoding"], "replay")
+        found = check_doc_str(ctx, None, c["recipe"], c["eventual_encoding"], "replay", history=c.get("history"))
         for w in found:
             print("VIOLATION:", w)
         print("   property demands:", v.get("expected"), "\n   implementation:  ", v.get("observed"))
